@@ -4,7 +4,12 @@
   machines of Model/Stream.lean.
 
   Write side: the BaseX encoder stream (the layer every armored encoder writes
-  through) is proved sticky and reporting.  The other write paths (go-codec's
+  through) is proved sticky and reporting, for an ARBITRARY underlying writer
+  (`Sink`: which of its writes fail): `Close` returns success only if exactly
+  the encoding of everything written reached the writer
+  (`C14_basex_close_ok_means_all_written`), and every failing underlying write
+  is reported by the call it happens in and by `Close`
+  (`C14_basex_fault_reported`).  The other write paths (go-codec's
   `Encode`, `bytes.Buffer`, the armor spacer) and the whole read stack are
   covered by fault injection at EVERY k-th underlying call of EVERY stream kind
   on every run, per call against the model where a model exists (BaseX encoder,
@@ -45,8 +50,47 @@ theorem C14_basex_success_means_written (ws : List Bytes) (s0 : EncState) (h0 : 
     rw [hc] at this
     exact absurd this (by decide)
 
+/-- **`Close` never reports success for a message that was not completely
+    written** — stated on what reached the underlying writer, not on the model's
+    sticky flag: for a well-formed encoding, ANY underlying writer (`sink`: the
+    list of which of its writes fail) and ANY sequence of `Write`s (whatever
+    they returned), if `Close` returns no error then the concatenation of the
+    successful underlying writes is exactly the one-shot encoding of
+    everything that was written. -/
+theorem C14_basex_close_ok_means_all_written (enc : Basex.Enc) (he : enc.WF) (sink : Sink) (ws : List Bytes) :
+    let s1 := ws.foldl (fun (s : EncState) w => (s.write w).2.2) ({ enc := enc, sink := sink } : EncState)
+    s1.close.1 = true → s1.close.2.written.flatten = Basex.encode enc ws.flatten :=
+  encStream_close_ok_all_written enc he sink ws
+
+/-- **Every failing underlying write is reported** (the dual): `consumed` is the
+    part of the sink used up between two points — one entry per underlying
+    write, `true` = that write failed.  (1) A `Write` during which a failing
+    entry was consumed returns an error.  (2) If a failing entry was consumed
+    anywhere between the creation of the encoder and the end of `Close` — in
+    any `Write` or in `Close` itself — then `Close` returns an error.  Hence
+    "some `Write` returned an error or `Close` did", and always `Close`. -/
+theorem C14_basex_fault_reported (enc : Basex.Enc) (sink : Sink) (ws : List Bytes) :
+    (∀ (s : EncState) (p : Bytes) (consumed : List Bool),
+      s.sink = consumed ++ (s.write p).2.2.sink → true ∈ consumed → (s.write p).2.1 = false) ∧
+    (let s1 := ws.foldl (fun (s : EncState) w => (s.write w).2.2) ({ enc := enc, sink := sink } : EncState)
+     ∀ consumed : List Bool, sink = consumed ++ s1.close.2.sink → true ∈ consumed → s1.close.1 = false) :=
+  ⟨fun s p consumed hc ht => encStream_write_fault_reported s p consumed hc ht,
+   fun consumed hc ht => encStream_fault_reported enc sink ws consumed hc ht⟩
+
+/-- the sink is only ever consumed from the front, one entry per underlying
+    write (so `consumed` above always exists and is unique) -/
+theorem C14_basex_sink_consumed (enc : Basex.Enc) (sink : Sink) (ws : List Bytes) :
+    let s1 := ws.foldl (fun (s : EncState) w => (s.write w).2.2) ({ enc := enc, sink := sink } : EncState)
+    ∃ consumed : List Bool, sink = consumed ++ s1.close.2.sink ∧ s1.close.2.failed = consumed.contains true := by
+  intro s1
+  obtain ⟨c, h1, h2⟩ := (consumes_fold ws ({ enc := enc, sink := sink } : EncState)).trans (consumes_close _)
+  exact ⟨c, h1, by simpa using h2⟩
+
 /-- read side, BaseX decoder: an error is sticky — once reported, every later
-    `Read` reports it again and releases nothing -/
+    `Read` reports it again and releases nothing.  (A ONE-STEP fact about a
+    single call; the whole-stream statement — a reader fault is never turned
+    into a clean end, after any fragments and for any buffer sizes — is
+    `C14_armor_fault_never_clean`.) -/
 theorem C14_decoder_sticky (par : Armor.Params) (ex : Armor.Expect) (cap : Nat) (d : DState) (e : RErr)
     (h : d.err = some e) : dRead par ex cap d = ([], some e, d) := by
   unfold dRead
@@ -60,7 +104,10 @@ theorem C14_chunk_reader_sticky (cap : Nat) (s : CRState Source)
   (crRead_terminal cap s hwf d x s' h).2
 
 /-- read side, punctuated reader (after the D6 fix): an error of the underlying
-    reader that arrives without data is handed on as it is -/
+    reader that arrives without data is handed on as it is.  (A ONE-STEP fact
+    about a single `Read` in an idle state; the whole-stream statement is
+    `C14_punct_reports`, and through the chunk reader and the armor stack
+    `C14_chunk_reader_reports`, `C14_armor_fault_never_clean`.) -/
 theorem C14_punct_propagates (cap : Nat) (s : PState) (e : RErr) (rest : Source)
     (h1 : s.thisSegment = []) (h2 : s.nextSegment = []) (h3 : s.errNextRead = none)
     (hsrc : s.src = ([], some e) :: rest) :
@@ -69,7 +116,10 @@ theorem C14_punct_propagates (cap : Nat) (s : PState) (e : RErr) (rest : Source)
   simp [h1, h2, h3, hsrc, srcRead]
 
 /-- …and one that arrives together with data is remembered and reported on the
-    next call that has nothing else to deliver (sticky from then on) -/
+    next call that has nothing else to deliver (sticky from then on).  (Again a
+    ONE-STEP fact: that the remembered error is in fact reported after all
+    remaining data, for every schedule of buffer sizes, is the whole-stream
+    theorem `C14_punct_reports`.) -/
 theorem C14_punct_remembers (cap : Nat) (s : PState) (e : RErr)
     (h1 : s.thisSegment = []) (h2 : s.nextSegment = []) (h3 : s.errNextRead = some e) :
     pRead cap s = ([], some e, s) := by
@@ -132,5 +182,16 @@ theorem C14_armor_fault_release_comparable (par : Armor.Params) (hpar : par.enc.
 
 /-! ## non-vacuity -/
 example : (({ enc := Gen.base62Std, sink := [true] } : EncState).write (List.replicate 32 7)).2.1 = false := by decide
+-- a writer whose second write fails: the first block got through, `Close` reports the failure
+example :
+    let s1 := [List.replicate 32 7, List.replicate 33 9].foldl (fun (s : EncState) w => (s.write w).2.2)
+      ({ enc := Gen.base62Std, sink := [false, true] } : EncState)
+    s1.close.1 = false ∧ s1.close.2.written.length = 1 := by decide
+-- a writer that never fails within the run: `Close` succeeds (the hypothesis of
+-- `C14_basex_close_ok_means_all_written` is satisfiable with a non-trivial sink)
+example :
+    let s1 := [List.replicate 32 7, [1]].foldl (fun (s : EncState) w => (s.write w).2.2)
+      ({ enc := Gen.base62Std, sink := [false, false, true] } : EncState)
+    s1.close.1 = true := by decide
 
 end Saltpack.Props.C14
